@@ -128,7 +128,7 @@ func safely(f func() string) (res string) {
 	select {
 	case r := <-done:
 		return r
-	case <-time.After(20 * time.Second):
+	case <-time.After(90 * time.Second): // generous: the machine may be shared with other checks
 		return "timeout"
 	}
 }
